@@ -82,7 +82,7 @@ fn model_chunk(b: &[u8; 12], need_props: bool, need_dict_reset: bool) -> (bool, 
 
 // C06-A / C16-B / C04-E / C03-C: one chunk header from arbitrary bytes and arbitrary reader flags: no panic; accepted exactly
 // when the reference model accepts; sizes as in the model; consumes exactly header + compressed payload.
-//@ {"name":"c06a_lzma2_chunk_header_any12","props":["C06","C16","C04","C01","C03"],"obligation":"C06-A","timeout":900,"functions":["lzma2_reader::LZMA2Reader::decode_chunk_header","lzma2_reader::LZMA2Reader::decode_props","range_dec::RangeDecoder::prepare","lz::LZDecoder::reset"],"bounds":"any 12 source bytes, source length 0..=12 symbolic (truncation); need_props / need_dict_reset symbolic; dictionary 4096; unwind 14","assumes":["compressed payload longer than the 12-byte source ends in EOF (covered by the truncation clause)"]}
+//@ {"name":"c06a_lzma2_chunk_header_any12","props":["C06","C16","C01","C04","C03"],"obligation":"C06-A","timeout":900,"functions":["lzma2_reader::LZMA2Reader::decode_chunk_header","lzma2_reader::LZMA2Reader::decode_props","range_dec::RangeDecoder::prepare","lz::LZDecoder::reset"],"bounds":"any 12 source bytes, source length 0..=12 symbolic (truncation); need_props / need_dict_reset symbolic; dictionary 4096; unwind 14","assumes":["compressed payload longer than the 12-byte source ends in EOF (covered by the truncation clause)"]}
 #[kani::proof]
 #[kani::unwind(14)]
 #[kani::stub(crate::decoder::LZMADecoder::new, crate::decoder::verif_stubs_dec::verif_havoc_decoder)]
